@@ -48,11 +48,75 @@ impl Body {
 pub fn http_dump_body(body: &mut Body) -> (r: Result<usize, BodyError>) { unimplemented!() }
 
 /// hyper::Request<crate::Body>: only the body matters to the body extractors
-pub struct Request { pub body: Body }
+pub struct Request { pub body: Body, pub headers: HeaderMap }
+/// http::request::Parts: only the headers matter here
+pub struct Parts { pub headers: HeaderMap }
 impl Request {
     #[verifier::external_body]
     pub fn into_body(self) -> (r: Body) ensures r == self.body { unimplemented!() }
+    #[verifier::external_body]
+    pub fn into_parts(self) -> (r: (Parts, Body)) ensures r.0.headers == self.headers, r.1 == self.body { unimplemented!() }
 }
+
+// ---- TRUSTED: what the TypedBody extractor hands to its dependencies ----
+/// bounds of TypedBody (schemars::JsonSchema, serde::de::DeserializeOwned): marker traits
+pub trait DeserializeOwned {}
+pub trait JsonSchema {}
+/// HeaderMap::get: the first value stored under the name, if any
+pub uninterp spec fn hm_get(h: HeaderMap, name: Seq<char>) -> Option<HeaderValue>;
+#[verifier::external_body]
+#[derive(Debug)]
+pub struct ToStrError { _p: u8 }
+/// which header values are visible ASCII (HeaderValue::to_str succeeds)
+pub uninterp spec fn hv_is_text(h: HeaderValue) -> bool;
+impl HeaderMap {
+    #[verifier::external_body]
+    pub fn get(&self, name: HeaderName) -> (r: Option<&HeaderValue>)
+        ensures (r is Some) == (hm_get(*self, name.name@) is Some), r is Some ==> *r->Some_0 == hm_get(*self, name.name@)->Some_0 { unimplemented!() }
+}
+impl HeaderValue {
+    #[verifier::external_body]
+    pub fn to_str(&self) -> (r: Result<&str, ToStrError>)
+        ensures (r is Ok) == hv_is_text(*self), r is Ok ==> r->Ok_0@ == hv_view(*self) { unimplemented!() }
+}
+/// the media type of a Content-Type header text: everything before the first ';', trailing whitespace trimmed,
+/// lower-cased (W1: the two string statements of http_request_load_body, as uninterpreted functions)
+pub uninterp spec fn media_type(ct: Seq<char>) -> Seq<char>;
+#[verifier::external_body]
+pub fn mime_end(content_type: &str) -> (r: usize) { unimplemented!() }
+#[verifier::external_body]
+pub fn mime_of(content_type: &str, end: usize) -> (r: String) ensures r@ == media_type(content_type@) { unimplemented!() }
+/// ApiEndpointBodyContentType::from_mime_type: a `match` on four constant strings (const patterns are outside
+/// Verus's pattern language): which of the four kinds a media type names, if any
+pub uninterp spec fn kind_of_mime(m: Seq<char>) -> Option<ApiEndpointBodyContentType>;
+impl ApiEndpointBodyContentType {
+    #[verifier::external_body]
+    pub fn from_mime_type(mime_type: &str) -> (r: Result<Self, String>)
+        ensures (r is Ok) == (kind_of_mime(mime_type@) is Some), r is Ok ==> r->Ok_0 == kind_of_mime(mime_type@)->Some_0 { unimplemented!() }
+}
+/// #[derive(Clone)] on a field-less enum: the copy equals the original
+impl Clone for ApiEndpointBodyContentType {
+    #[verifier::external_body]
+    fn clone(&self) -> (r: Self) ensures r == *self { unimplemented!() }
+}
+/// the two decoders: partial functions of the body bytes (None: the decoder refuses them)
+pub uninterp spec fn json_value<T>(bytes: Seq<u8>) -> Option<T>;
+pub uninterp spec fn urlencoded_value<T>(bytes: Seq<u8>) -> Option<T>;
+pub struct JsonDeserializer { pub bytes: Ghost<Seq<u8>> }
+pub struct UrlDeserializer { pub bytes: Ghost<Seq<u8>> }
+#[verifier::external_body]
+#[derive(Debug)]
+pub struct PathError { _p: u8 }
+#[verifier::external_body]
+pub fn json_deserializer(body: &BytesMut) -> (r: JsonDeserializer) ensures r.bytes@ == body.data@ { unimplemented!() }
+#[verifier::external_body]
+pub fn urlencoded_deserializer(body: &BytesMut) -> (r: UrlDeserializer) ensures r.bytes@ == body.data@ { unimplemented!() }
+#[verifier::external_body]
+pub fn json_decode<T>(jd: &mut JsonDeserializer) -> (r: Result<T, PathError>)
+    ensures (r is Ok) == (json_value::<T>(old(jd).bytes@) is Some), r is Ok ==> r->Ok_0 == json_value::<T>(old(jd).bytes@)->Some_0 { unimplemented!() }
+#[verifier::external_body]
+pub fn urlencoded_decode<T>(ud: UrlDeserializer) -> (r: Result<T, PathError>)
+    ensures (r is Ok) == (urlencoded_value::<T>(ud.bytes@) is Some), r is Ok ==> r->Ok_0 == urlencoded_value::<T>(ud.bytes@)->Some_0 { unimplemented!() }
 pub struct BytesMut { pub data: Ghost<Seq<u8>> }
 /// futures::future::ok(x): a future that is immediately ready with Ok(x)
 #[verifier::external_body]
@@ -75,7 +139,7 @@ impl StreamingBody {
             self.cap <= usize::MAX - isize::MAX as usize ==> {
                 &&& (r is Ok) == (!has_error(self.body.frames@) && total(data_chunks(self.body.frames@)) <= self.cap)
                 &&& (r is Ok ==> r->Ok_0.data@ == concat_all(data_chunks(self.body.frames@)))
-                &&& (r is Err ==> status_of(r->Err_0) == 400)
+                &&& (r is Err ==> is_client_code(status_of(r->Err_0)))
             }
     { unimplemented!() }
 }
